@@ -300,6 +300,8 @@ class AttributeCollection(MutableMapping[int, Attribute]):
                             ],
                         ),
                     ],
+                    # the local AS may need 4 bytes: pack_attribute() falls back to AS_TRANS + AS4_PATH when needed
+                    asn4=True,
                 )
             ),
             Attribute.CODE.LOCAL_PREF: lambda left, right: LocalPreference.from_int(100) if left == right else NOTHING,
